@@ -213,7 +213,8 @@ func (f *FrameHeader) readFrom(br *bufio.Reader) (int64, error) {
 
 		n, err = io.ReadFull(br, f.payload[:n])
 		if err != nil {
-			ReleaseFrame(f.fr)
+			// The callers release f.fr along with f when the read fails.
+			// Releasing it here as well puts the same frame in the pool twice.
 			return 0, err
 		}
 
